@@ -96,6 +96,10 @@ def run(
         raise TlcError(f"TLC timed out after {timeout}s: {' '.join(cmd)}") from ex
     out = p.stdout + p.stderr
     res = TlcResult(ok=False, output=out, wall_s=time.time() - t0, cmd=" ".join(cmd))
+    if not keep_dir and not dump:
+        shutil.rmtree(work, ignore_errors=True)   # scratch (TLC metadir) is not needed any more
+    elif not keep_dir:
+        shutil.rmtree(meta, ignore_errors=True)
     ms = _RE_STATES.findall(out)
     if ms:
         res.generated, res.distinct = int(ms[-1][0]), int(ms[-1][1])
